@@ -555,6 +555,7 @@ type regenRec struct {
 	Out       int64    `json:"out"`
 	Conns     int      `json:"conns"`
 	ConnUpd   int      `json:"connupdates"`
+	Dead2     int      `json:"second_conn_given_up"`
 	Stalled   bool     `json:"stalled"`
 	Units     int64    `json:"units"`
 	FlushErr  string   `json:"flusherr"`
@@ -830,6 +831,10 @@ func regenRun(out string, c regenCfg, deadline time.Duration, h *hookLog, instal
 		}
 	}
 
+	if k := h.count(func(ev hookEv) bool { return ev.name == "relay.connUpdate" }); k != 1 {
+		return fail("the relay connected more than once at start (its reconnect ticker fired before updateConn had registered: scheduling stall)")
+	}
+
 	// 2. the endpoint closes the first connection; the relay gives up on it and reconnects
 	ep.mu.Lock()
 	ep.conns[0].Close()
@@ -926,6 +931,12 @@ func regenRun(out string, c regenCfg, deadline time.Duration, h *hookLog, instal
 	rec.Slow = counter(key, "unit=Metric.action=drop.reason=slow_conn") - slow0
 	rec.Out = counter(key, "unit=Metric.direction=out") - out0
 	rec.ConnUpd = h.count(func(ev hookEv) bool { return ev.name == "relay.connUpdate" })
+	rec.Dead2 = h.count(func(ev hookEv) bool { return ev.name == "relay.dead" && ev.conn == second.conn })
+	if rec.ConnUpd > 2 && rec.Dead2 == 0 {
+		// a third connection although the relay never gave up on the second one: the reconnect ticker fired a
+		// second time before the first updateConn goroutine had registered (scheduling stall) -- not a verdict on C05
+		return fail("the relay reconnected twice after the cut without giving up on the second connection (scheduling stall)")
+	}
 	ep.mu.Lock()
 	rec.Conns = len(ep.conns)
 	rec.OldWire = len(ep.data[0])
